@@ -916,6 +916,8 @@ func (d *vAliveDelegate) NotifyAlive(peer *Node) error {
 type vMetaDelegate struct {
 	mu   sync.Mutex
 	meta []byte
+	slow time.Duration // time the application takes to handle one user message
+	got  int
 }
 
 func (d *vMetaDelegate) NodeMeta(limit int) []byte {
@@ -928,7 +930,15 @@ func (d *vMetaDelegate) set(b []byte) {
 	d.meta = b
 	d.mu.Unlock()
 }
-func (d *vMetaDelegate) NotifyMsg([]byte)                           {}
+func (d *vMetaDelegate) NotifyMsg([]byte) {
+	d.mu.Lock()
+	d.got++
+	slow := d.slow
+	d.mu.Unlock()
+	if slow > 0 {
+		time.Sleep(slow)
+	}
+}
 func (d *vMetaDelegate) GetBroadcasts(overhead, limit int) [][]byte { return nil }
 func (d *vMetaDelegate) LocalState(join bool) []byte                { return nil }
 func (d *vMetaDelegate) MergeRemoteState(buf []byte, join bool)     {}
